@@ -223,12 +223,14 @@ func ruleImageMethods(c *Ctx) {
 		}
 		n := NewNormer(c.P)
 		n.BindParams(fn, "content")
+		kk := 0
 		eachInstr(fn, func(b *ssa.BasicBlock, ins ssa.Instruction) {
 			call, ok := ins.(*ssa.Call)
 			if !ok || calleeOf(call) == nil || calleeOf(call).Pkg == nil || shortName(calleeOf(call).Pkg.Pkg.Path()) != "utils" || len(call.Common().Args) < 3 || !isStringType(call.Common().Args[0].Type()) {
 				return
 			}
-			c.expectPoly(R5, name+"/content-arg", call.Pos(), n, call.Common().Args[1], want)
+			kk++
+			c.expectPoly(R5, fmt.Sprintf("%s/content-arg#%d", name, kk), call.Pos(), n, call.Common().Args[1], want)
 		})
 	}
 }
